@@ -12,13 +12,14 @@ from vlib import log
 
 PROP = "C10"
 INFORMATIONAL = ("LatestRevision", "AccountBalance")
+UNSERVABLE = ("ReadUnaligned", "FreeOutOfRange")
 
 
 def leg_m(wd, tier):
     cfg = "Renter_mc.cfg" if tier == "quick" else "Renter_mc3.cfg"
     r = vlib.run_tlc(wd, "Renter", cfg, workers=8, timeout=900)
     vlib.tlc_must_pass(r, "Renter fault space / acceptance rule")
-    log("  M: Renter (%s): %d distinct states, %d transitions, depth %d, %.1fs; SuccessImpliesBound, HonestSucceeds, ObeysRule hold" %
+    log("  M: Renter (%s): %d distinct states, %d transitions, depth %d, %.1fs; SuccessImpliesBound, HonestSucceeds, ObeysRule, PlansAgree hold" %
         (cfg, r.distinct, r.generated, r.depth, r.wall))
     return [r]
 
@@ -48,7 +49,7 @@ def cases_from_edges(edges, rng):
         faults = [{"msg": f["msg"], "field": f["field"], "how": f["how"], "k": f["k"]} for f in st["plan"]]
         faults.sort(key=fault_key)
         c = {"rpc": st["rpc"], "variant": st["variant"], "faults": faults, "must": st["must"],
-             "model": last["outcome"], "info": st["rpc"] in INFORMATIONAL,
+             "model": last["outcome"], "info": st["rpc"] in INFORMATIONAL, "unservable": st["rpc"] in UNSERVABLE,
              "classes": {fault_key(f): f["class"] for f in st["classes"]}}
         cases[case_key(c)] = c
     return paths, [cases[k] for k in sorted(cases)]
@@ -86,9 +87,9 @@ def leg_r(wd, tier, binary, verdict, stub="", cfg=None, only=None, tag=""):
     if cnt.get("noop_unbind") and not stub:
         raise vlib.Infra("%d result-bearing corruptions had no effect on the wire: %s" % (cnt["noop_unbind"], res["notes"][:5]))
     log("  R: %d cases executed against the real client/server: %d ok, %d err, %d panic; %d corrupted exchanges rejected, "
-        "%d corrupted-but-bound accepted, %d no-op faults; %d mismatches, %.1fs" % (
+        "%d corrupted-but-bound accepted, %d faults without effect (no-op or never read); %d mismatches, %.1fs" % (
             res["evaluations"], cnt.get("outcome_ok", 0), cnt.get("outcome_err", 0), cnt.get("outcome_panic", 0),
-            cnt.get("corrupted_rejected", 0), cnt.get("corrupted_but_bound_accepted", 0), cnt.get("noop_faults", 0),
+            cnt.get("corrupted_rejected", 0), cnt.get("corrupted_but_bound_accepted", 0), cnt.get("faults_noop_or_unseen", 0),
             len(res["mismatches"]), res["wall"]))
     return dict(states=nst, edges=ned, paths=len(paths), covered=covered, cases=len(cases), steps=res["evaluations"],
                 distinct=res["distinct"], samples=res["samples"], counts=cnt, full=(covered == ned),
@@ -147,7 +148,8 @@ def leg_t(wd, rr, verdict, tag="t", flagged=()):
         verdict.add({"sig": "renter:%s:%s:%s" % (ev["rpc"], fs, kind),
                      "desc": "TLC rejects the recorded outcome %s (%s)" % (json.dumps(ev), r.violated or "no RenterTrace action explains it"),
                      "replay": {"kind": "case", "case": {"rpc": ev["rpc"], "variant": ev["variant"], "faults": ev["faults"],
-                                                         "info": ev["rpc"] in INFORMATIONAL, "classes": {}, "must": "any"}}})
+                                                         "info": ev["rpc"] in INFORMATIONAL, "unservable": ev["rpc"] in UNSERVABLE,
+                                                         "classes": {}, "must": "any"}}})
         keep = [l for i, l in enumerate(lines) if i != idx and event_key(json.loads(l)) not in flagged]
         dropped += len(lines) - len(keep) - 1
         open(path, "w").write("\n".join(keep) + ("\n" if keep else ""))
@@ -230,7 +232,7 @@ def selftest():
     wd = vlib.workdir(PROP + "-selftest")
     binary = vlib.go_build("renterx", wd)
     ok = True
-    for cfg in ("Renter_dev_sig.cfg", "Renter_dev_data.cfg"):
+    for cfg in ("Renter_dev_sig.cfg", "Renter_dev_data.cfg", "Renter_dev_unaligned.cfg"):
         x = vlib.run_tlc(wd, "MCRenter", cfg, workers=4, timeout=300)
         good = x.exit != 0 and x.violated == "SuccessImpliesBound"
         log("selftest 1 (%s: abstract client without the check violates SuccessImpliesBound): %s" % (cfg, "ok" if good else "FAILED"))
@@ -244,22 +246,34 @@ def selftest():
     ok = ok and good
     v = vlib.Verdict("C10-selftest"); v.findings = []
     leg_r(wd, "quick", binary, v, stub="rejecting-client", only=lambda c: c["variant"] == 0 and not c["faults"])
-    good = len([m for m in v.violations if m["sig"].endswith("honest-failed")]) == 11
+    good = len([m for m in v.violations if m["sig"].endswith("honest-failed")]) == 11   # all but the unservable input classes
     log("selftest 2b (client that rejects everything fails HonestSucceeds for all 11 RPCs): %s" % ("ok" if good else "FAILED"))
     ok = ok and good
     # corrupted trace
     v = vlib.Verdict("C10-selftest"); v.findings = []
     rr = leg_r(wd, "quick", binary, v, only=lambda c: c["variant"] == 1)
-    lines = open(rr["trace"]).read().splitlines()
+    flagged = set(rr["flagged"])   # known findings of the unchanged tree: not part of the good trace
+    lines = [l for l in open(rr["trace"]).read().splitlines() if event_key(json.loads(l)) not in flagged]
     muts = []
-    for i, l in enumerate(lines):
-        e = json.loads(l)
-        if e["outcome"] == "err" and e["eff"] and e["rpc"] == "ReadSector" and not muts:
-            e["outcome"] = "ok"; muts.append((i, e, "err->ok on a corrupted read (bound=false)"))
-        if e["outcome"] == "ok" and not e["eff"] and e["rpc"] == "FreeSectors" and len(muts) == 1:
-            e["outcome"] = "err"; muts.append((i, e, "ok->err on an honest exchange"))
-        if e["eff"] and e["rpc"] == "SectorRoots" and len(muts) == 2:
-            e["faults"][0]["field"] = "NoSuchField"; e["eff"] = e["faults"]; muts.append((i, e, "fault outside the enumerated fault space"))
+    def pick(pred, edit, what):
+        for i, l in enumerate(lines):
+            e = json.loads(l)
+            if pred(e):
+                edit(e); muts.append((i, e, what)); return
+    def to(field, val):
+        def f(e): e[field] = val
+        return f
+    pick(lambda e: e["outcome"] == "err" and e["eff"] and e["rpc"] == "ReadSector", to("outcome", "ok"),
+         "err->ok on a corrupted read (bound=false)")
+    pick(lambda e: e["outcome"] == "ok" and not e["eff"] and e["rpc"] == "FreeSectors", to("outcome", "err"),
+         "ok->err on an honest exchange")
+    def bad_field(e):
+        e["faults"][0]["field"] = "NoSuchField"; e["eff"] = e["faults"]
+    pick(lambda e: e["eff"] and e["rpc"] == "SectorRoots", bad_field, "fault outside the enumerated fault space")
+    pick(lambda e: e["outcome"] == "err" and e["eff"] and e["rpc"] == "AppendSectors", to("outcome", "panic"),
+         "err->panic")
+    def flip_bound(e): e["bound"] = False
+    pick(lambda e: e["outcome"] == "ok" and e["bound"] and e["rpc"] == "WriteSector", flip_bound, "bound true->false on a success")
     for i, e, what in muts:
         l2 = list(lines); l2[i] = json.dumps(e, separators=(",", ":"))
         p = os.path.join(wd, "mut.ndjson"); open(p, "w").write("\n".join(l2) + "\n")
@@ -268,5 +282,5 @@ def selftest():
         good = t["rejected"] == 1
         log("selftest 3 (%s rejected by TLC): %s" % (what, "ok" if good else "FAILED"))
         ok = ok and good
-    ok = ok and len(muts) == 3
+    ok = ok and len(muts) == 5
     return 0 if ok else 2
